@@ -236,8 +236,107 @@ def run(ctx, res):
                                      what="engines built by BoboSetupSimple for different URNs produced the same %s in the same second: %s"
                                           % (kind.replace("_", " "), {u: r[u][kind] for u in r}),
                                      case=dict(clock=[1700000000], setup=True), detail=r))
+    interleave_half(res)
     # shrink failures: keep the shortest
     res.failures.sort(key=lambda f: len(f["case"].get("clock", [])))
+
+
+# ------------------------------------------------------------------------------------------------------------
+# a second caller at EVERY line of generate(), whether or not the generator has a lock of its own
+def line_interleave(gen, clock, k):
+    """Caller A asks `gen` for one identifier per clock reading.  When A's generate() reaches its k-th traced line a
+    second caller B (a real thread) asks the same generator for an identifier and is given 30 ms: with the critical
+    section intact B simply waits until A is done; with any gap B runs inside A's call.  Returns (A's ids, B's ids,
+    whether the k-th line was ever reached)."""
+    import sys
+    import bobocep.cep.gen.event_id as m
+    cur = [clock[0]]
+    a_ids, b_ids, threads, hit = [], [], [], [False]
+    old = m.time
+    m.time = lambda: cur[0]
+
+    def b_call():
+        b_ids.append(gen.generate())
+
+    a_thread = threading.get_ident()
+
+    def tracer(frame, event, arg):
+        if event != "call" or threading.get_ident() != a_thread:
+            return None
+        if frame.f_code.co_name != "generate" or frame.f_locals.get("self") is not gen:
+            return None
+        n = [0]
+
+        def local(frame, event, arg):
+            if event == "line":
+                n[0] += 1
+                if n[0] == k:
+                    hit[0] = True
+                    t = threading.Thread(target=b_call, daemon=True)
+                    t.start()
+                    threads.append(t)
+                    t.join(0.03)
+            return local
+        return local
+    try:
+        for c in clock:
+            cur[0] = c
+            sys.settrace(tracer)
+            try:
+                a_ids.append(gen.generate())
+            finally:
+                sys.settrace(None)
+        for t in threads:
+            t.join(5)
+    finally:
+        m.time = old
+    return a_ids, b_ids, hit[0]
+
+
+def generators_of_setup(urn):
+    """the identifier generators inside an engine assembled by BoboSetupSimple (found by type, not by name)"""
+    import bobocep.cep.gen.event_id as m
+    from bobocep.setup.simple import BoboSetupSimple
+    from bobocep.cep.phenom.phenom import BoboPhenomenon
+    from bobocep.cep.phenom.pattern.builder import BoboPatternBuilder
+    from bobocep.cep.action.handler import BoboActionHandlerBlocking
+    pat = BoboPatternBuilder("p").followed_by(lambda e, h: True).followed_by(lambda e, h: True).generate()
+    eng = BoboSetupSimple(phenomena=[BoboPhenomenon(name="ph", patterns=[pat], action=None)],
+                          handler=BoboActionHandlerBlocking(), urn=urn).generate()
+    found = {}
+    for part in (eng.receiver, eng.decider, eng.producer, eng.forwarder):
+        for v in vars(part).values():
+            if isinstance(v, m.BoboGenEventID):
+                found[id(v)] = v
+    return list(found.values())
+
+
+def interleave_half(res):
+    import bobocep.cep.gen.event_id as m
+    n, lines = 0, 0
+    targets = [("direct", lambda: [m.BoboGenEventIDUnique("u")]), ("setup", lambda: generators_of_setup("u"))]
+    for origin, make in targets:
+        for clock in ([5, 5, 6, 6, 7], [5, 6, 7, 8], [5, 4, 5, 6]):
+            for k in range(1, 16):
+                reached = False
+                for gi, gen in enumerate(make()):
+                    a, b, hit = line_interleave(gen, clock, k)
+                    reached = reached or hit
+                    n += 1
+                    ids = a + b
+                    if len(set(ids)) != len(ids):
+                        res.failures.append(dict(signature="duplicate-id-second-caller-inside-generate",
+                                                 what="a second caller asking at line %d of generate() got an identifier the first "
+                                                      "caller also got (generator %s): A %s, B %s"
+                                                      % (k, "constructed directly" if origin == "direct" else "of an engine from BoboSetupSimple", a, b),
+                                                 case=dict(clock=clock, line=k, origin=origin, gen_index=gi, interleaving="line"), detail=None))
+                        break
+                if not reached:
+                    break
+                lines = max(lines, k)
+            res.note_case(("line-interleave", origin, tuple(clock)), True)
+    res.extra["line_interleavings"] = n
+    res.extra["lines_of_generate_reached"] = lines
 
 
 class ReleaseHook:
@@ -329,6 +428,15 @@ def replay(obj):
     if "clock" not in case:
         print(obj)
         return 0
+    if case.get("interleaving") == "line":
+        import bobocep.cep.gen.event_id as m
+        gens = [m.BoboGenEventIDUnique("u")] if case["origin"] == "direct" else generators_of_setup("u")
+        a, b, _ = line_interleave(gens[min(case.get("gen_index", 0), len(gens) - 1)], case["clock"], case["line"])
+        print("caller A:", a)
+        print("caller B (asking when A's generate() is at line %d):" % case["line"], b)
+        dup = len(set(a + b)) != len(a + b)
+        print("duplicate identifiers" if dup else "identifiers pairwise distinct")
+        return 1 if dup else 0
     if "interleaving" in case:
         mine, other = hook_case(case["clock"])
         print("caller A:", mine)
